@@ -21,11 +21,13 @@ def regen_capi():
     return True, msgs
 
 
-def run(pid, tier):
+def run(pid, tier, phases=()):
     res = C.Result(pid, tier)
     known = [k for k in C.load_known().get("findings", []) if k.get("property") == pid]
     with C.Lock():
         lean_ok, names = C.lean_phase(res, pid, gen_fn=regen_capi)
+    for ph in phases:
+        ph(res, tier)
     out = k6.explore(tier, C.seed())
     for b in out["build_errors"]:
         res.add_broken("K6 harness does not compile against /repo", b["log"])
